@@ -114,7 +114,7 @@ Lemma for_ret_find {S X R} n lo (test : nat -> res (option X)) (fin : X -> res R
       (body : nat -> S -> res (S + R)) (s0 : S) :
   (forall i, body i s0 = let* o := test i in
                          match o with Some x => let* r := fin x in Ok (inr r) | None => Ok (inl s0) end) ->
-  (let* o := for_ret_from n lo body s0 in match o with inl s => K s | inr r => Ok r end)
+  (let* o := for_ret_from n lo body s0 in match o with inl st => K st | inr r => Ok r end)
   = (let* hit := find_from n lo test in match hit with Some x => fin x | None => K s0 end).
 Proof.
   intros Hb. revert lo; induction n as [|n IH]; intros lo; cbn [for_ret_from find_from bind]; [reflexivity|].
@@ -128,7 +128,7 @@ Proof.
   destruct (sp_rows s <=? row); [reflexivity|]. destruct (sp_cols s <=? col); [reflexivity|].
   destruct (length (sp_col_start s) <=? col); [reflexivity|].
   apply bind_ext; intros ci.
-  apply (for_ret_find _ _ _ (fun k => let* v := rd (sp_val s) k in Ok (Some v)) (fun _ => Ok None)).
+  apply (for_ret_find _ _ _ (fun k => let* w := rd (sp_val s) k in Ok (Some w)) (fun _ => Ok None)).
   intros k. destruct (rd (sp_row_index s) k) as [r|]; cbn [bind]; [|reflexivity].
   destruct (r =? row); cbn [bind]; [|reflexivity].
   destruct (rd ci k) as [c|]; cbn [bind]; [|reflexivity].
@@ -143,8 +143,8 @@ Proof.
   destruct (length (sp_col_start s) <=? col); [reflexivity|].
   apply bind_ext; intros ci.
   apply (for_ret_find _ _ _
-           (fun k => let* v := upd (sp_val s) k x in
-                     Ok (mkS (sp_rows s) (sp_cols s) (sp_nonzero s) v (sp_row_index s) (sp_col_start s)))
+           (fun k => let* w := upd (sp_val s) k x in
+                     Ok (mkS (sp_rows s) (sp_cols s) (sp_nonzero s) w (sp_row_index s) (sp_col_start s)))
            (fun s' => let* ts := sp_to_triplets s' in sp_from_triplets (sp_rows s') (sp_cols s') (ts ++ [(row, col, x)]))).
   intros k. destruct (rd (sp_row_index s) k) as [r|]; cbn [bind]; [|reflexivity].
   destruct (r =? row); cbn [bind]; [|reflexivity].
